@@ -364,10 +364,20 @@ func extra6C17(c *Ctx) {
 			ok2 := false
 			if rs, isR := ast.Unparen(as.Rhs[0]).(*ast.SelectorExpr); isR && rs.Sel.Name == "Index" {
 				if fv := core.FieldVar(info, rs); fv != nil && fv.Pkg() != nil && strings.HasSuffix(fv.Pkg().Path(), "/api") {
-					// of the element being converted: the range value of the loop around the store
-					for _, rl := range rangeLoops(f) {
-						if vid, isV := rl.Stmt.Value.(*ast.Ident); isV && within(rl.Stmt, as) && core.UsesObj(info, rs, info.Defs[vid]) {
-							ok2 = true
+					// of the element being converted: the current element of the loop around the store
+					// (range value, list[i], or a local initialised from it such as fn := tc[i].Function)
+					g := c.G(f)
+					for _, lp := range listLoops(info, f.Body) {
+						if !within(lp.Stmt, as) {
+							continue
+						}
+						for _, x := range expand(g, rs.X, 2) {
+							ast.Inspect(x, func(q ast.Node) bool {
+								if e, isE := q.(ast.Expr); isE && lp.IsElem(e) {
+									ok2 = true
+								}
+								return true
+							})
 						}
 					}
 				}
